@@ -262,6 +262,20 @@ func (x *Exec) evalIdent(env *SpecEnv, name string) Val {
 			}
 		}
 	}
+	if name == "$o" && env.fr != nil && env.at != nil {
+		// index of the current element of the nearest ENCLOSING range loop (for invariants
+		// of a range loop nested in another one, where $i is the inner loop's own count)
+		for b := env.at.Idom(); b != nil; b = b.Idom() {
+			for _, ins := range b.Instrs {
+				if phi, ok := ins.(*ssa.Phi); ok && phi.Comment == "rangeindex" {
+					if pv, ok := env.fr.vals[phi]; ok {
+						return Val{T: x.iAdd(pv.T, x.S.IdxLit(1)), Typ: types.Typ[types.Int]}
+					}
+				}
+			}
+		}
+		panic(specErr("$o used outside a nested range loop"))
+	}
 	if name == "$i" && env.fr != nil && env.at != nil {
 		// number of elements already visited by a range loop = rangeindex φ + 1
 		for _, ins := range env.at.Instrs {
@@ -853,6 +867,19 @@ func (x *Exec) evalCall(env *SpecEnv, e ECall) Val {
 			t = mkEq(held, intLit(0))
 		}
 		return Val{T: t, Typ: types.Typ[types.Bool]}
+	case "inmap":
+		// inmap(m, k): key k is present in the Go map m
+		m := x.evalVal(env, e.Args[0])
+		mt, ok := m.Typ.Underlying().(*types.Map)
+		if !ok {
+			panic(specErr("inmap: first argument is not a map"))
+		}
+		dn, ds, _, _ := x.mapHeaps(mt)
+		d := x.heapGet(env.cur, dn, ds)
+		k := x.coerce(x.evalVal(env, e.Args[1]), mt.Key())
+		ksrt := x.S.SortOf(mt.Key())
+		in := mkAnd(mkNot(mkEq(m.T, intLit(0))), Term{app("select", Term{app("select", d, m.T), arraySort(ksrt, "Bool")}, k.T), "Bool"})
+		return Val{T: in, Typ: types.Typ[types.Bool]}
 	case "has", "add", "del":
 		// ghost sets: membership, insertion, removal
 		s := x.evalVal(env, e.Args[0])
